@@ -256,6 +256,8 @@ def check_dof_norm(ctx, repo):
 
 
 def run(ctx):
+    from ..memo import check_memo_keys
+    check_memo_keys(ctx, ctx.repo, SPEC1D, 'HMF', 'C15.MEMO-KEY')
     check_dof_norm(ctx, ctx.repo)
     check_pinv(ctx, ctx.repo)
     check_synw(ctx, ctx.repo)
